@@ -1,2 +1,6 @@
 import Biogo.Properties.C08_lin
 open Biogo.Properties.C08_lin
+#print axioms nw_opt
+#print axioms sw_opt
+#print axioms sw_nonneg
+#print axioms fitted_table_opt
